@@ -141,8 +141,10 @@ class C18NoneProduct(Prop):
     def compare(self, case, impl, model):
         return None
 
+    tags: tuple[str, ...] = ("C18",)
+
     def monitor(self, case, impl):
-        fails = []
+        fails: list[tuple[str, str]] = []
         where = "child" if case["in_child"] else "root"
         other = "root" if case["in_child"] else "child"
         free = [i for i in range(case["ntypes"]) if not (case["taken"] and case["ntypes"] > 1 and i == 1)]
@@ -155,13 +157,14 @@ class C18NoneProduct(Prop):
         else:
             got = [e for e in got if e[1] == "np"]
         if got != want_ev:
-            fails.append(f"one generation of a factory whose product is None and {len(case['lookups'])} lookups {case['lookups']} "
-                         f"announced {got} on the context, expected {want_ev}")
+            fails.append(("C18", f"one generation of a factory whose product is None and {len(case['lookups'])} lookups "
+                                 f"{case['lookups']} announced {got} on the context, expected {want_ev}"))
         if [e for e in impl["events"][other] if e[1] == "np" and not e[2] and e[0] != [1]]:
-            fails.append(f"the generation in the {where} context was announced on the {other} context too")
+            fails.append(("C18", f"the generation in the {where} context was announced on the {other} context too"))
         if impl["calls"] != (0 if gen is None else 1):
-            fails.append(f"the factory was called {impl['calls']} times for {case['lookups']} in one context")
-        return ["[C18] " + f for f in fails]
+            fails.append(("C04", f"a factory whose product is None was called {impl['calls']} times for the lookups "
+                                 f"{case['lookups']} made in one context"))
+        return [f"[{t}] {m}" for t, m in fails if t in self.tags]
 
     def nontrivial(self, case, impl):
         return impl["calls"] >= 1 and len(case["lookups"]) >= 2
